@@ -1335,6 +1335,15 @@ func (env *SpecEnv) pureApplyIn(pkg *types.Package, name string, argExprs []ast.
 					if i < sf.Signature.Params().Len() && v.t.sort == "nil" {
 						v.t = ex.vc.zero(sf.Signature.Params().At(i).Type())
 					}
+					// an argument of a concrete type handed to an interface parameter is boxed, exactly as the
+					// call in the code does (otherwise specification and code would talk about different functions)
+					if i < sf.Signature.Params().Len() && v.typ != nil && v.t.sort != SVal && v.t.sort != "nil" {
+						if _, isIface := sf.Signature.Params().At(i).Type().Underlying().(*types.Interface); isIface {
+							if _, argIface := v.typ.Underlying().(*types.Interface); !argIface {
+								v.t = ex.vc.box(v.t, v.typ)
+							}
+						}
+					}
 					args = append(args, v.t)
 				}
 				rs := ex.pureCall(env.st, "fn."+con.Name, sf.Signature, args)
